@@ -19,20 +19,31 @@ FAMILIES = {
     "var1-nonexport": dict(n_axes=1, layout="intermediate", n_glyphs=12, composites=0.5, nested=True, non_export=3, sparse_glyphs=0.4),
     "var1-mixedglyphs": dict(n_axes=1, layout="onaxis", n_glyphs=10, composites=0.5, mixed_glyphs=0.6),
     "var1-cubic": dict(n_axes=1, layout="onaxis", n_glyphs=8, curves="cubic"),
+    "kern-static": dict(n_axes=0, n_glyphs=12, composites=0.0, kern=dict(pairs=25)),
+    "kern-var1": dict(n_axes=1, layout="onaxis", n_glyphs=14, composites=0.0, kern=dict(pairs=30, partial=0.3)),
+    "kern-divergent": dict(n_axes=2, layout="corners", n_glyphs=16, composites=0.0, kern=dict(pairs=40, divergent=0.8, partial=0.2)),
+    "kern-many": dict(n_axes=1, layout="onaxis", n_glyphs=40, composites=0.0, kern=dict(pairs=400, exceptions=0.1)),
+    "kern-intermediate": dict(n_axes=1, layout="intermediate", n_glyphs=12, composites=0.0, kern=dict(pairs=25, divergent=0.5)),
 }
 
 BY_PROPERTY = {
     "C01": ["static-noorder", "var1-noorder", "var2-mixed-sparse", "var2-partialorder", "var1-nonexport", "var2-nested-xform",
-            "var1-mixedglyphs", "var3-mixed", "var1-vertical", "var1-cubic"],
-    "C02": ["var1-mixedglyphs", "var1-nonexport", "var2-mixed-sparse", "static-noorder", "var2-partialorder"],
-    "C14": ["var1-noorder", "var2-mixed-sparse", "var1-mixedglyphs"],
+            "var1-mixedglyphs", "var3-mixed", "var1-vertical", "var1-cubic", "kern-many", "kern-divergent", "kern-var1"],
+    "C02": ["var1-mixedglyphs", "var1-nonexport", "var2-mixed-sparse", "static-noorder", "var2-partialorder", "kern-many", "kern-var1", "kern-static"],
+    "C14": ["var1-noorder", "var2-mixed-sparse", "var1-mixedglyphs", "kern-var1", "kern-intermediate", "kern-divergent"],
 }
 
 
 def make(family, seed, index):
     rng = random.Random(f"{family}:{seed}:{index}")
     knobs = dict(FAMILIES[family])
+    kern = knobs.pop("kern", None)
+    post = knobs.pop("post", None)
     m = M.build(rng, family=family.replace("-", ""), **knobs)
+    if kern:
+        M.add_kerning(m, rng, **kern)
+    if post:
+        post(m, rng)
     m["family_id"] = family
     m["seed"] = seed
     m["index"] = index
